@@ -22,10 +22,13 @@ Record akern (F : Type) := mk_akern {
   a_demand_met : F -> F -> bool;     (* ev.remaining_demand < threshold *)
   a_demands_ratio : F -> F -> F;     (* finished / len(ev_history) *)
   a_nema : F -> F -> F -> F;         (* mean, mean, max  |->  (max - mean) / mean *)
-  a_minutes : F -> F -> F            (* i, period |-> period * i *)
+  a_minutes : F -> F -> F;           (* i, period |-> period * i *)
+  a_energy_cost : F -> F -> F;       (* period, <prices . aggregate power> |-> dot * (period / 60) *)
+  a_demand_charge : F -> F -> F      (* dc, max aggregate power |-> dc * max *)
 }.
 Arguments a_power_scale {F}. Arguments a_abs_applied {F}. Arguments a_proportion {F}. Arguments a_remaining {F}.
 Arguments a_demand_met {F}. Arguments a_demands_ratio {F}. Arguments a_nema {F}. Arguments a_minutes {F}.
+Arguments a_energy_cost {F}. Arguments a_demand_charge {F}.
 
 Section Analysis.
   Context {F : Type}.
@@ -162,6 +165,25 @@ Section Analysis.
   (* the recorded matrix of a ledger run (one list per period), station-major as Simulator.charging_rates *)
   Definition station_major_of (by_period : list (list F)) (n : nat) : list (list F) :=
     map (fun s => map (fun col => nth s col z0) by_period) (seq 0 n).
+
+  (* ------------------------------------------------------------ energy_cost / demand_charge
+     `prices` = tariff.get_tariffs(sim.start, len(agg), sim.period), `dc` = tariff.get_demand_charge(sim.start) of the
+     tariff that applies (the explicit argument if one is given, otherwise the simulator's own); the tariff lookup
+     itself is C17's subject *)
+  Definition energy_cost (tr : traj) (prices : list F) : F :=
+    a_energy_cost A (t_period tr)
+                  (fsumA (map (fun p => fst p *' snd p) (combine prices (aggregate_power tr)))).
+  (* np.max of a non-empty vector; None = ValueError on an empty one *)
+  Definition vec_max (v : list F) : option F :=
+    match v with [] => None | x :: r => Some (fold_left (omax O) r x) end.
+  Definition demand_charge (tr : traj) (dc : F) : option F :=
+    option_map (a_demand_charge A dc) (vec_max (aggregate_power tr)).
+  (* SPEC *)
+  Definition energy_cost_spec (tr : traj) (prices : list F) : F :=
+    fsumA (map (fun p => fst p *' snd p) (combine prices (map (aggregate_power_spec tr) (periods tr))))
+    *' (t_period tr /' oofZ O 60).
+  Definition demand_charge_spec (tr : traj) (dc : F) : option F :=
+    option_map (fun m => dc *' m) (vec_max (map (aggregate_power_spec tr) (periods tr))).
 
   (* ------------------------------------------------------------ energy metrics *)
   Definition total_energy_requested (tr : traj) : F := fold_left (oadd O) (map fst (t_evh tr)) z0.
